@@ -196,6 +196,14 @@ def link_repo():
     if os.path.islink(link) or os.path.exists(link):
         os.remove(link)
     os.symlink(want, link)
+    # cargo's freshness check is mtime-based on the same path: after retargeting the link to a tree with
+    # older files a stale binary would be reused. Drop the fingerprints of the repo crates.
+    fp = os.path.join(TARGET, "debug", ".fingerprint")
+    if os.path.isdir(fp):
+        import shutil
+        for d in os.listdir(fp):
+            if d.startswith("s2n-") or d.startswith("vh-"):
+                shutil.rmtree(os.path.join(fp, d), ignore_errors=True)
 
 
 def harness_bin(harness):
